@@ -33,8 +33,8 @@ type Case struct {
 	Program string `json:"program"`
 	// ProgramGo: Go quoted program text, set when the text is not valid UTF-8 (JSON cannot carry it)
 	ProgramGo string `json:"program_go,omitempty"`
-	Skel    string `json:"skel,omitempty"`
-	Mode    string `json:"mode,omitempty"`
+	Skel      string `json:"skel,omitempty"`
+	Mode      string `json:"mode,omitempty"`
 }
 
 func hashText(s string) uint64 {
@@ -43,64 +43,38 @@ func hashText(s string) uint64 {
 	return h.Sum64()
 }
 
+// level is one completely enumerated set of programs.
 type level struct {
-	name string
-	n    int
-	pol  policy
-	pair bool
-	single bool // size 1: one hole at a time over the full alphabet
-	json bool // also mirror the AST->JSON->AST path in Go
+	name   string
+	n      int    // exact number of constructs
+	pol    policy // atoms per hole
+	set    genSet // which constructs
+	pair   bool   // size 1: all pairs of holes over the full alphabet
+	single bool   // size 1: one hole at a time over the full alphabet
+	json   bool   // syntactic: also mirror the AST->JSON->AST path in Go
+	// rootShard: partition by outermost construct instead of by text hash (no
+	// shard enumerates the others' subtrees; duplicates are not removed)
+	rootShard bool
 }
 
-func only(sec string) bool {
-	o := os.Getenv("VERIF_ONLY")
-	return o == "" || o == sec
+var gens = map[genSet]*gen{}
+
+func genFor(set genSet) *gen {
+	g, ok := gens[set]
+	if !ok {
+		g = newGenSet(set)
+		gens[set] = g
+	}
+	return g
 }
 
-func run(r *core.Run) {
-	r.Rule("a program is non-trivial when gojq.Parse accepts it and it has at least one construct (operator, keyword form, bracket, suffix, directive); counted by distinct program text")
-	r.Assume("size of a program = number of grammar constructs applied; leaves are atoms of size 0. Atom policy: size 0 and 1: full atom alphabet (size 1: all pairs of holes range over the full alphabet, other holes hold one atom); size 2: 4 atoms per hole; size >= 3: one atom per hole (innermost bound name if any, else distinct numbered literals)")
-	r.Assume("semantic oracle: programs are built from deterministic, side effect free builtins only (no input/inputs/env/now/halt/display calls); reference = direct evaluation of the unmodified text in an fq interpreter session with the same input values")
-	t0 := time.Now()
-
-	if os.Getenv("VERIF_ONLY") == "bench" {
-		bench()
-		return
+func (l level) each(r *core.Run, yield func(item) bool) bool {
+	g := genFor(l.set)
+	g.shardN, g.shardIdx = 0, 0
+	if l.rootShard && r != nil && r.ShardN > 1 {
+		g.shardN, g.shardIdx = r.ShardN, r.ShardIdx
 	}
-	if only("syn") {
-		runSyntactic(r)
-		r.Logf("syntactic done in %v", time.Since(t0))
-	}
-	if only("fqpath") {
-		runFqPath(r)
-		r.Logf("fq path done in %v", time.Since(t0))
-	}
-	if only("sem") {
-		runSemantic(r)
-		r.Logf("semantic done in %v", time.Since(t0))
-	}
-}
-
-func synLevels(r *core.Run) []level {
-	if r.Thorough() {
-		return []level{
-			{name: "size0-full", n: 0, pol: polFull, pair: false, json: true},
-			{name: "size1-full-pairs", n: 1, pol: polFull, pair: true, json: true},
-			{name: "size2-k2", n: 2, pol: polK2, pair: false, json: true},
-			{name: "size3-k1", n: 3, pol: polK1, pair: false, json: true},
-			{name: "size2-k4", n: 2, pol: polK4, pair: false, json: true},
-			{name: "size4-k1", n: 4, pol: polK1, pair: false, json: false},
-		}
-	}
-	return []level{
-		{name: "size0-full", n: 0, pol: polFull, pair: false, json: true},
-		{name: "size1-full-pairs", n: 1, pol: polFull, pair: true, json: true},
-		{name: "size2-k2", n: 2, pol: polK2, pair: false, json: true},
-		{name: "size3-k1", n: 3, pol: polK1, pair: false, json: false},
-	}
-}
-
-func (l level) each(g *gen, yield func(item) bool) bool {
+	defer func() { g.shardN = 0 }()
 	if l.pair {
 		return g.level1Pairs(yield)
 	}
@@ -110,20 +84,106 @@ func (l level) each(g *gen, yield func(item) bool) bool {
 	return g.programs(l.n, l.pol, yield)
 }
 
-func report(r *core.Run, kind string, it item, mode string, vs []viol) {
-	for _, v := range vs {
-		prog := it.text
-		if v.prog != "" {
-			prog = v.prog
+func (l level) mine(r *core.Run, h uint64) bool {
+	if l.rootShard && r.ShardN > 1 {
+		return true
+	}
+	return r.Mine(int64(h >> 2))
+}
+
+func only(sec string) bool {
+	o := os.Getenv("VERIF_ONLY")
+	return o == "" || o == sec
+}
+
+func run(r *core.Run) {
+	r.Rule("a program is non-trivial when gojq.Parse accepts it and it has at least one construct (operator, keyword form, bracket, suffix, directive) or belongs to the capture set; counted by distinct program text")
+	r.Assume("size of a program = number of grammar constructs applied (operators, keyword forms, brackets, suffixes, directives); leaves are atoms (literal snippets) of size 0. Atoms per leaf: size 0 and 1 the full alphabet (size 1: every pair of holes ranges over the full alphabet while the other holes hold one atom); size 2: two (thorough also four) atoms per hole; size >= 3: one atom per hole (the innermost bound name if any, else literals numbered in text order). The level names in sections_completed say which set was enumerated completely")
+	r.Assume("semantic oracle: programs are built from deterministic, side effect free constructs (no calls of input/inputs/env/now/halt/display); reference = direct evaluation of the unmodified program text by an fq interpreter session (same builtins, no rewrite) on the same input values; values are compared as canonical JSON")
+	r.Assume("a command line run that does not return within 40 s is inconclusive (counted, never an alarm)")
+	t0 := time.Now()
+	if os.Getenv("VERIF_ONLY") == "bench" {
+		bench()
+		return
+	}
+	g := genFor(setFull)
+	r.Extra("constructs", len(g.prods))
+	r.Extra("atoms", len(g.atoms))
+	r.Extra("pattern_atoms", len(patternAtoms))
+	r.Extra("binary_operators", len(binOps))
+
+	type phase struct {
+		sec string
+		fn  func() bool
+	}
+	var phases []phase
+	syn := func(ls ...level) phase {
+		return phase{"syn", func() bool { return runSyntactic(r, ls) }}
+	}
+	fqp := func(ls ...level) phase {
+		return phase{"fqpath", func() bool { return runFqPath(r, ls) }}
+	}
+	var st *semState
+	sem := func(ls ...semLevel) phase {
+		return phase{"sem", func() bool {
+			if st == nil {
+				st = newSemState()
+				st.r = r
+			}
+			return runSemantic(r, st, ls)
+		}}
+	}
+	all := semModes
+	null := []string{"null"}
+	l0 := level{name: "size0-full", n: 0, pol: polFull, json: true}
+	l1p := level{name: "size1-full-pairs", n: 1, pol: polFull, pair: true, json: true}
+	l1s := level{name: "size1-full-single", n: 1, pol: polFull, single: true}
+	l2k1 := level{name: "size2-k1", n: 2, pol: polK1}
+	l2k2 := level{name: "size2-k2", n: 2, pol: polK2, json: true}
+	l2k4 := level{name: "size2-k4", n: 2, pol: polK4, json: true}
+	l3 := level{name: "size3-k1", n: 3, pol: polK1}
+	s0 := level{name: "size0-full", n: 0, pol: polFull, set: setSem}
+	s1k1 := level{name: "size1-k1", n: 1, pol: polK1, set: setSem}
+	s1k4 := level{name: "size1-k4", n: 1, pol: polK4, set: setSem}
+	s1s := level{name: "size1-full-single", n: 1, pol: polFull, single: true, set: setSem}
+	s2k1 := level{name: "size2-k1", n: 2, pol: polK1, set: setSem}
+	s3mini := level{name: "size3-k1-mini-constructs", n: 3, pol: polK1, set: setMini}
+	l3j := l3
+	l3j.json = true
+	l4core := level{name: "size4-k1-core-constructs", n: 4, pol: polK1, set: setCore, rootShard: true}
+
+	if r.Quick() {
+		phases = []phase{
+			syn(l0, l1p, l2k2),
+			fqp(l0, l1s, l2k1),
+			sem(semLevel{level{name: "capture-set"}, all}, semLevel{s0, all}, semLevel{s1k1, all}, semLevel{s1k4, []string{"null", "normal"}}, semLevel{s2k1, null}),
+			syn(l3),
 		}
-		if rc := rootCause(prog); rc != "" {
-			v.sig = rc
+	} else {
+		phases = []phase{
+			syn(l0, l1p, l2k2),
+			fqp(l0, l1s, l2k1),
+			sem(semLevel{level{name: "capture-set"}, all}, semLevel{s0, all}, semLevel{s1k1, all}, semLevel{s1k4, all}, semLevel{s2k1, null}),
+			syn(l3j),
+			fqp(l1p, l2k2),
+			sem(semLevel{s1s, null}, semLevel{s2k1, []string{"normal", "slurp"}}),
+			syn(l2k4),
+			fqp(l3),
+			sem(semLevel{s3mini, null}),
+			syn(l4core),
 		}
-		c := Case{Kind: kind, Program: prog, Skel: it.skel, Mode: mode}
-		if !utf8.ValidString(prog) {
-			c.ProgramGo = strconv.Quote(prog)
+	}
+	for _, ph := range phases {
+		if !only(ph.sec) {
+			continue
 		}
-		r.Violate(v.sig, v.what, c)
+		if !ph.fn() {
+			break
+		}
+		r.Logf("phase %s done at %v", ph.sec, time.Since(t0).Round(time.Second))
+	}
+	if st != nil {
+		st.close()
 	}
 }
 
@@ -147,19 +207,32 @@ func rootCause(prog string) string {
 	return ""
 }
 
-func runSyntactic(r *core.Run) {
-	g := newGen(false)
-	r.Extra("constructs", len(g.prods))
-	r.Extra("atoms", len(g.atoms))
-	r.Extra("pattern_atoms", len(patternAtoms))
-	for _, l := range synLevels(r) {
+func report(r *core.Run, kind string, it item, mode string, vs []viol) {
+	for _, v := range vs {
+		prog := it.text
+		if v.prog != "" {
+			prog = v.prog
+		}
+		if rc := rootCause(prog); rc != "" {
+			v.sig = rc
+		}
+		c := Case{Kind: kind, Program: prog, Skel: it.skel, Mode: mode}
+		if !utf8.ValidString(prog) {
+			c.ProgramGo = strconv.Quote(prog)
+		}
+		r.Violate(v.sig, v.what, c)
+	}
+}
+
+func runSyntactic(r *core.Run, levels []level) bool {
+	for _, l := range levels {
 		var cand, mine, acc, rej, strictDiff int64
 		seen := map[uint64]struct{}{}
-		dedupe := l.n <= 3
-		done := l.each(g, func(it item) bool {
+		dedupe := !l.rootShard
+		done := l.each(r, func(it item) bool {
 			cand++
 			h := hashText(it.text)
-			if !r.Mine(int64(h >> 2)) {
+			if !l.mine(r, h) {
 				return true
 			}
 			if dedupe {
@@ -189,11 +262,11 @@ func runSyntactic(r *core.Run) {
 				report(r, "syn", it, "", vs)
 			}
 			if acc%50021 == 1 {
-				r.Sample(map[string]any{"level": l.name, "program": it.text, "printed": t1})
+				r.Sample(map[string]any{"oracle": "syntactic", "level": l.name, "program": it.text, "printed": t1})
 			}
 			return true
 		})
-		if r.ShardIdx == 0 {
+		if r.ShardIdx == 0 && !l.rootShard {
 			r.Extra("candidates_"+l.name, cand)
 		}
 		r.Count("syn_accepted_"+l.name, acc)
@@ -201,13 +274,14 @@ func runSyntactic(r *core.Run) {
 		r.Count("syn_reprint_not_identical_tree_"+l.name, strictDiff)
 		if !done {
 			r.NotExhaustive("deadline: syntactic level " + l.name + " not finished")
-			return
+			return false
 		}
 		if r.ShardIdx == 0 {
 			r.Section("syntactic:" + l.name)
 		}
 		r.Logf("syntactic %s: candidates=%d mine=%d accepted=%d rejected=%d", l.name, cand, mine, acc, rej)
 	}
+	return true
 }
 
 func replay(r *core.Run, raw json.RawMessage) bool {
@@ -236,6 +310,9 @@ func replay(r *core.Run, raw json.RawMessage) bool {
 		vs = st.check(it, c.Mode, true, strings.Contains(c.Skel, ":"))
 	}
 	for _, v := range vs {
+		if rc := rootCause(c.Program); rc != "" {
+			v.sig = rc
+		}
 		fmt.Printf("  %s: %s\n", v.sig, v.what)
 	}
 	return len(vs) > 0
